@@ -38,6 +38,22 @@ def install():
 
     SYM = (SymbolicInt, SymbolicBool, SymbolicFloat, AnySymbolicStr)
 
+    # E-PATCH4: CrossHair 0.0.110 models '$' without re.MULTILINE as "end of string" only; CPython also matches
+    # before a final line feed.  Such patterns are declared unhandled, which makes CrossHair fall back to
+    # enumerating concrete subject strings (sound, possibly inconclusive) instead of deciding with a wrong model.
+    import re as _re
+    import crosshair.libimpl.relib as _relib
+    _orig_match_patterns = _relib._internal_match_patterns
+
+    def _guarded_match_patterns(top_patterns, flags, *a, **kw):
+        if len(top_patterns) > 0:
+            first = top_patterns[0]
+            if first[0] is _relib.AT and first[1] is _relib.AT_END and not (flags & _re.MULTILINE):
+                raise _relib.ReUnhandled("'$' without MULTILINE (matches before a final line feed)")
+        return _orig_match_patterns(top_patterns, flags, *a, **kw)
+
+    _relib._internal_match_patterns = _guarded_match_patterns
+
     def _placeholder(x, depth=0):
         if isinstance(x, SymbolicBool):
             return False
